@@ -11,6 +11,20 @@ COMMON_NOTE = ("Trusted base: Coq 8.16.1 kernel + vm_compute (no native_compute,
                "modelled, not verified. ")
 
 CLAIMED = {
+ "C04": dict(
+  text="Axiom-free theorems over Z about a hand model of _compute_bonds / Bonds.extract / Molecules.extract built on the C03 lattice model: for any "
+       "non-singular cell, pbc mask, atoms stored in ANY periodic image and any non-negative radii, the bond list is exactly the pairs i<j and cells c with "
+       "2|x_j + cL - x_i| <= R_i + R_j, each with that cell and squared length (sound and complete, via the C03 all-images theorem), and the bond matrix is "
+       "its symmetric projection; for ANY bond list the queue-based traversal terminates within its fuel, every atom belongs to exactly one molecule "
+       "(Permutation of 0..N-1) and every molecule is closed under bonding (bonded atoms share a molecule; invariant proved over the traversal). Tied to "
+       "the code by exact correspondence (bond tuples incl. cells and lengths in order; molecules incl. atom order, cell offsets and neighbour lists on the "
+       "implementation's own bond list) and oracles: brute-force contact set, union-find components, potential-consistency of the stored offsets and bond "
+       "lengths after subset(use_cell_indices) for finite molecules, real radii tables x scale x default incl. elements without tabulated radii.",
+  note="PARTIAL: 'same molecule => connected' (the converse of closure) and the re-assembly of finite molecules are decided by oracles, not proved. Real "
+       "(non-half-integer) radii are compared numerically with margins away from the threshold. Three defects found by this check were repaired (b2e8154, "
+       "67e456d, 4ae34c7).",
+  technique="Coq proof (Z, lists, Permutation, no axioms; invariant over the BFS traversal) of a hand model reusing the C03 theorems + exact correspondence + brute-force / union-find oracles",
+  design="§8 C04"),
  "C15": dict(
   text="Theorems about a hand model of NMRTensor arithmetic and averaging (class tag, 3x3 data, initialisation parameters): negation, scaling, addition and "
        "subtraction return the class and ALL parameters of the handling operand with data = the matrix operation; same-class operands with any differing "
